@@ -926,8 +926,7 @@ func RunStarving(prefix []int, starve string, ncpu int, body func()) *Result {
 					}
 				}
 				g.forced = false
-				s.last = append(s.last[:0], g)
-				s.release(g, 0)
+				s.release(g, 0) // (who "ran last" stays as the scheduling step that led here left it)
 				progressed = true
 				break
 			}
